@@ -3,6 +3,7 @@ package c10
 import (
 	"fmt"
 	"sort"
+	"strconv"
 	"strings"
 
 	"verif/core"
@@ -28,6 +29,20 @@ func evalTerm(t interface{}) (uint64, error) {
 		return 0, fmt.Errorf("bad id term %v", t)
 	}
 	switch a[0] {
+	case "fpb": // fingerprint of a byte string
+		bs, ok := a[1].([]interface{})
+		if !ok || len(a) != 2 {
+			return 0, fmt.Errorf("bad fpb term %v", t)
+		}
+		b := make([]byte, len(bs))
+		for i, v := range bs {
+			n, err := strconv.Atoi(fmt.Sprint(v))
+			if err != nil {
+				return 0, fmt.Errorf("bad fpb term %v", t)
+			}
+			b[i] = byte(n)
+		}
+		return Fingerprint64(string(b)), nil
 	case "fp":
 		s, ok := a[1].(string)
 		if !ok || len(a) != 2 {
